@@ -637,6 +637,16 @@ func staleDefaultTime(x *mon.Ctx) {
 		o.GetCollateral = false
 		afterDownload[name] = o
 	}
+	// ... and a value whose time set names only SOME of the five instants (the others zero: crypto/x509 reads a zero time as
+	// "now"): re-used after the expiry it must judge like a fresh value with the same settings
+	partial := func() *verify.Options {
+		o := mk()
+		now := time.Now()
+		o.Now = &verify.TimeSet{TcbInfo: now, QeIdentity: now}
+		return o
+	}
+	sharedPartial := partial()
+	errPartial1 := verify.RawTdxQuote(raw, sharedPartial)
 	t1 := time.Now()
 	err1 := verify.RawTdxQuote(raw, shared)
 	if !t1.Before(exp.Add(-500 * time.Millisecond)) {
@@ -672,6 +682,13 @@ func staleDefaultTime(x *mon.Ctx) {
 		x.Broken("stale-default-time: the forged quote was accepted")
 	} else if (errAfterFailure == nil) != (errFresh == nil) {
 		x.Violation("stale-default-time", "after-failed-call", fmt.Sprintf("Options.Now left nil: an options value whose first use was a FAILED verification still accepts the chain after it expired (err=%v) while a fresh value rejects (%v)", errAfterFailure, errFresh), "none", wit)
+	}
+	{
+		errPS, errPF := verify.RawTdxQuote(raw, sharedPartial), verify.RawTdxQuote(raw, partial())
+		if (errPS == nil) != (errPF == nil) {
+			x.Violation("stale-default-time", "partly-set-time-set", fmt.Sprintf("Options.Now names only the TCB-Info and QE-Identity instants: before the leaf expired the value gave err=%v; after the expiry the re-used value gives err=%v while a fresh value with the same settings gives err=%v: the instants left unset were filled in at the first call and kept", errPartial1, errPS, errPF), "none", wit)
+		}
+		x.Note("stale-default-time", "partly-set-time-set", errPS == nil, false, true)
 	}
 	for name, o := range afterDownload {
 		err := verify.RawTdxQuote(raw, o)
